@@ -81,7 +81,7 @@ func (fr *Frame) libCall(i *ssa.Call, callee *ssa.Function, args []Val, st *Stat
 		use("STR: strings.ToUpper(s) equals an ASCII keyword iff s is a case variant of it")
 		fr.regs[i] = TV{T: mk(SStr, "str_upper", ts(0))}
 	case "strings.ReplaceAll":
-		use("STR: strings.ReplaceAll axioms")
+		use("STR: strings.ReplaceAll axioms (nothing to replace: unchanged; one byte by one byte: same length, byte-wise map)")
 		fr.regs[i] = TV{T: mk(SStr, "str_replace", ts(0), ts(1), ts(2))}
 	case "strings.Contains":
 		use("STR: strings.Contains uninterpreted")
@@ -128,7 +128,7 @@ func (fr *Frame) libCall(i *ssa.Call, callee *ssa.Function, args []Val, st *Stat
 		fr.sprintf(i, args, st, g, true)
 		fr.regs[i] = TV{T: mk(SErr, "SomeErr", x.fresh("errid", SInt))}
 	case "fmt.Sprintf":
-		use("FMT: verb-by-verb expansion of constant format strings")
+		use("FMT: verb-by-verb expansion of constant format strings; an int or float64 prints as at least one character")
 		fr.regs[i] = TV{T: fr.sprintf(i, args, st, g, false)}
 	case "reflect.TypeOf":
 		fr.regs[i] = TV{T: x.fresh("rtype", x.eng.tc.sortOf(i.Type()))}
